@@ -157,6 +157,13 @@ class LockAnalysis:
         init = v.get('init')
         if ts.startswith(GUARD_TYPES):
             args = (init or {}).get('args', []) if init and init.get('k') == 'Construct' else []
+            if len(args) == 2 and 'try_to_lock' in pp(args[1]):
+                # conditional acquisition: the code that runs after the ownership test holds the mutex; the failure path is recorded -
+                # an operation that gives up under contention is not an operation of any sequential ordering
+                self.S.trylocks = getattr(self.S, 'trylocks', []) + [(self.facts.rel(v['loc']), ctx.fn['q'])]
+                args = args[:1]
+            elif len(args) == 2 and 'adopt_lock' in pp(args[1]):
+                args = args[:1]
             if len(args) != 1:
                 self.S.undecided.append('lock guard with %d arguments at %s (deferred/adopted locking not modelled)' % (len(args), v['loc']))
                 return
